@@ -10,7 +10,7 @@ evaluation order, casts, constants) is carried over one-to-one."""
 import hashlib
 import re
 from .astdb import ExtractError, walk
-from .ctypes_map import TypeMap, strip_cv, template_parts, ident, SCALAR_C
+from .ctypes_map import TypeMap, strip_cv, template_parts, ident, SCALAR_C, BUILTIN
 
 MATH1 = {'sqrt', 'log', 'exp', 'sin', 'cos', 'tan', 'asin', 'acos', 'atan', 'sinh', 'cosh', 'tanh',
          'asinh', 'acosh', 'atanh', 'log10', 'log2', 'floor', 'ceil', 'cbrt', 'round', 'trunc'}
@@ -101,8 +101,6 @@ class Translator:
             r = self.resolve_typedef(spelling)
             self._rec_cache[spelling] = r
             return r
-        if rec.get('bases'):
-            raise ExtractError('record with base classes: ' + spelling)
         r = self.record_ctype(rec)
         self._rec_cache[spelling] = r
         return r
@@ -508,6 +506,11 @@ class Translator:
             g = self.global_ref(b0['referencedDecl'])
             if g in self.global_arrays:
                 return '%s(%s)' % (g, self.e(i[1]))
+        if b0.get('kind') == 'DeclRefExpr' and b0['referencedDecl']['id'] in getattr(self, 'cptr_params', {}):
+            et = self.cptr_params[b0['referencedDecl']['id']]
+            cn = 'OPQ_PTR_AT_' + ident(et)
+            self.opaque_decls[cn] = (et, ['c_opaque', 'c_ulong'], 'element of a caller-owned constant array')
+            return '%s(%s, %s)' % (cn, self.locals[b0['referencedDecl']['id']], self.e(i[1]))
         try:
             bt = self.tm.tname(base['type'])
         except ExtractError:
@@ -547,7 +550,33 @@ class Translator:
                 except ExtractError:
                     src_ct = None
                 if src_ct != 'c_opaque':
-                    self.abort(n, 'base class conversion')
+                    # the base sub-object is the member verif_base_<Base> of the derived record (record_ctype)
+                    path = n.get('path') or []
+                    if not path or not src_ct or not src_ct.startswith('struct '):
+                        self.abort(n, 'base class conversion without a path')
+                    is_ptr = i[-1]['type']['qualType'].rstrip().endswith('*')
+                    cur = src_ct
+                    for hop in path:
+                        fld = None
+                        for ft, fn in (self.tm.kinds.get(cur) or ('', []))[1]:
+                            if fn == 'verif_base_' + hop.get('name', '') or (fn.startswith('verif_base_') and fn.endswith('_' + hop.get('name', '\0'))):
+                                fld, cur = fn, ft
+                                break
+                        if fld is None:
+                            self.abort(n, 'base class %s is not a modelled base of %s' % (hop.get('name'), cur))
+                        if is_ptr and self.has_unbounded(src_ct):
+                            # CBMC cannot form the address of a member of a record holding unbounded arrays: the base
+                            # sub-object is copied into a local for the statement (and back, unless const)
+                            if self.no_hoist:
+                                self.abort(n, 'base sub-object materialised in a loop condition/increment')
+                            self.tmpn = getattr(self, 'tmpn', 0) + 1
+                            t = 'verif_b%d' % self.tmpn
+                            self.pre.append('%s %s = (%s)->%s;' % (cur, t, x, fld))
+                            if not n['type']['qualType'].lstrip().startswith('const '):
+                                self.post.append('(%s)->%s = %s;' % (x, fld, t))
+                            x = '(&%s)' % t
+                        else:
+                            x = '(&(%s)->%s)' % (x, fld) if is_ptr else '(%s).%s' % (x, fld)
             return x
         if ck in ('IntegralCast', 'IntegralToFloating', 'FloatingCast', 'FloatingToIntegral',
                   'IntegralToBoolean', 'FloatingToBoolean', 'BooleanToSignedIntegral'):
@@ -1053,6 +1082,7 @@ class Translator:
                 if name == 'empty':
                     return '(VEC_SIZE(%s) == 0)' % o
                 if name == 'at':
+                    self.called = True      # may throw: propagate after the statement
                     return 'VEC_AT_CHECKED(%s, %s)' % (o, A(0))
                 if name == 'back':
                     return 'VEC_AT(%s, VEC_SIZE(%s) - 1)' % (o, o)
@@ -1098,6 +1128,10 @@ class Translator:
             # opaque pure getter of a class outside the extraction set
             q = (full or {}).get('_qual', fam + '::' + str(name))
             if any(rx.search(q) for rx in self.opaque_ok):
+                if oct_ in ('c_opaque', None) and not o.startswith('OPQ_ELEM(') and self._lvalue_text(o):
+                    # an unmodelled member object: its (havocable) placeholder value is its identity -- CBMC cannot
+                    # form the address of a member that follows unbounded arrays
+                    return self.opaque_call(n, q, full, 'OPQ_ID(%s)' % o, args)
                 return self.opaque_call(n, q, full, ptr or o, args)
         q = (full or {}).get('_qual', name)
         for rx, macro in self.lib_rx:
@@ -1382,6 +1416,26 @@ class Translator:
             ref, _ = self.callee_decl(c0['inner'][0])
             if ref and ref.get('name') == 'transform' and self.full_decl(ref) is None:
                 return self.std_transform(c0)
+            if ref and ref.get('name') == 'iota' and self.full_decl(ref) is None:
+                return self.std_iota(c0)
+        if c0.get('kind') == 'CXXMemberCallExpr' and c0['inner'][0].get('kind') == 'MemberExpr' and \
+                c0['inner'][0].get('name') in ('assign', 'resize'):
+            me = c0['inner'][0]
+            fam, _ = self.obj_family(me['inner'][0])
+            try:
+                oct0 = self.tm.tname(me['inner'][0]['type']).rstrip(' *').rstrip()
+            except ExtractError:
+                oct0 = 'c_opaque'
+            margs = [a for a in c0['inner'][1:] if a and a.get('kind') != 'CXXDefaultArgExpr']
+            if fam in ('std::vector', 'vector') and oct0 != 'c_opaque' and self.tm.kinds.get(oct0, ('',))[0] == 'vec':
+                o = self.e(me['inner'][0])
+                if me.get('isArrow'):
+                    o = '(*%s)' % o
+                if me['name'] == 'assign' and len(margs) == 2 and not margs[0]['type']['qualType'].rstrip().endswith(('*', 'iterator')) \
+                        and 'iterator' not in margs[0]['type']['qualType']:
+                    return self.vec_update(o, self.e(margs[0]), self.e(margs[1]), None, 'vector::assign(n, x): n copies of x')
+                if me['name'] == 'resize' and len(margs) == 1:
+                    return self.vec_update(o, self.e(margs[0]), '0', 'keep', 'vector::resize(n): the first min(n, size) elements are kept, new elements are value-initialised')
         af = self._assert_cond(n)
         if af is not None:
             self.out('VERIF_ASSERT(%s, "%s/assert line %s");' % (self.e(af), self.cur.cname, self._line(n)))
@@ -1910,6 +1964,53 @@ class Translator:
         self.ind -= 1
         self.out('}')
 
+    def vec_update(self, dst, new_size, fx, keep, what):
+        """dst becomes a vector of new_size elements: element q is fx (an expression in verif_q, verif_old); with
+        keep='keep' the elements below the old size are retained.  Stated at the unit's ghost indices when
+        @instantiate is given (weaker, sound), else with a quantifier."""
+        self.cur.stubs.add(what + ' (library semantics)')
+        self.out('{   /* %s */' % what)
+        self.ind += 1
+        self.out('__typeof__(%s) verif_old = (%s);' % (dst, dst))
+        self.out('unsigned long verif_ns = (%s);' % new_size)
+        self.out('__typeof__(%s) verif_dn;' % dst)
+        self.out('__CPROVER_assume(verif_dn.size == verif_ns);')
+        def fact(q):
+            f = fx.replace('verif_q', q)
+            if keep:
+                return '((%s) < verif_old.size ? verif_dn.data[%s] == verif_old.data[%s] : verif_dn.data[%s] == (%s))' % (q, q, q, q, f)
+            return 'verif_dn.data[%s] == (%s)' % (q, f)
+        if self.instantiate:
+            for g in self.instantiate:
+                self.out('__CPROVER_assume(!((%s) < verif_ns) || %s);' % (g, fact(g)))
+        else:
+            self.out('__CPROVER_assume(__CPROVER_forall { unsigned long verif_q; (verif_q < verif_ns) ==> %s });' % fact('verif_q'))
+        self.out('(%s) = verif_dn;' % dst)
+        self.ind -= 1
+        self.out('}')
+
+    def std_iota(self, n):
+        """std::iota(v.begin(), v.end(), start): v[k] = start + k"""
+        inner = [x for x in n.get('inner', []) if x]
+        args = inner[1:]
+        if len(args) != 3:
+            self.abort(n, 'std::iota with %d arguments' % len(args))
+
+        def vec_of(a, which):
+            x = a
+            while x.get('kind') in ('ImplicitCastExpr', 'MaterializeTemporaryExpr', 'CXXConstructExpr', 'ExprWithCleanups') and x.get('inner'):
+                x = [y for y in x['inner'] if y][0]
+            if x.get('kind') != 'CXXMemberCallExpr' or x['inner'][0].get('name') != which:
+                self.abort(n, 'std::iota argument is not <vector>.%s()' % which)
+            me = x['inner'][0]
+            o = self.e(me['inner'][0])
+            return '(*%s)' % o if me.get('isArrow') else o
+        v, ve = vec_of(args[0], 'begin'), vec_of(args[1], 'end')
+        if v != ve:
+            self.abort(n, 'std::iota over a range of two different containers')
+        start = self.e(args[2])
+        return self.vec_update(v, '(%s).size' % v, '(%s) + verif_q' % start, None, 'std::iota(v.begin(), v.end(), s): v[k] = s + k')
+
     def s_BreakStmt(self, n, inner):
         kind, k = self.brk[-1]
         if kind == 'cloop':
@@ -2020,6 +2121,19 @@ class Translator:
         cname = cname or ident(name + ('_' + '_'.join(targs) if targs else ''))
         self._rec_cache[key] = 'struct ' + cname
         fields = []
+        for b in rec.get('bases', []):
+            # a (non-virtual) base class is its sub-object: first members of the derived record
+            if b.get('isVirtual'):
+                raise ExtractError('virtual base class of ' + name)
+            bt = self.tm.tname(b['type'])
+            if bt == 'c_opaque':
+                continue
+            if bt.startswith('struct ') and bt not in self.tm.kinds:
+                del self._rec_cache[key]
+                raise ExtractError('recursive record: base %s of %s is still under construction' % (bt, name))
+            if not bt.startswith('struct '):
+                raise ExtractError('base class %s of %s is not a record' % (b['type'].get('qualType'), name))
+            fields.append((bt, 'verif_base_' + bt[len('struct '):]))
         for k in rec.get('inner', []):
             if k.get('kind') == 'FieldDecl':
                 try:
@@ -2030,13 +2144,34 @@ class Translator:
                     ft = 'c_opaque'
                     self.opaque_fields.add('%s::%s' % (cname, k['name']))
                 kd = self.tm.kinds.get(ft)
-                if kd and kd[0] == 'vec' and self.tm.kinds.get(kd[1], ('',))[0] == 'vec':
-                    ft = 'c_opaque'      # vector of vectors: nested unbounded arrays are not supported by CBMC
+                if kd and kd[0] == 'vec' and self.has_unbounded(kd[1]):
+                    ft = 'c_opaque'      # vector of vectors / of records holding vectors: nested unbounded arrays are not supported by CBMC
+                    self.opaque_fields.add('%s::%s' % (cname, k['name']))
+                elif ft.startswith('struct ') and ft not in self.tm.kinds:
+                    ft = 'c_opaque'      # a record still under construction: recursive type
                     self.opaque_fields.add('%s::%s' % (cname, k['name']))
                 fields.append((ft, k['name']))
         self.tm.add_record(cname, fields)
         self.rec_decls['struct ' + cname] = rec
         return 'struct ' + cname
+
+    def has_unbounded(self, ct, depth=0):
+        """does C type ct contain an unbounded array (a modelled vector / string), or is it still being built?"""
+        ct = ct.strip()
+        kd = self.tm.kinds.get(ct)
+        if kd is None:
+            return ct.startswith('struct ')     # record under construction (recursive) -- treat as unbounded
+        if kd[0] == 'vec':
+            return True
+        if depth > 12:
+            return True
+        if kd[0] == 'rec':
+            return any(self.has_unbounded(t, depth + 1) for t, _ in kd[1])
+        if kd[0] in ('opt', 'arr'):
+            return self.has_unbounded(kd[1], depth + 1)
+        if kd[0] == 'tup':
+            return any(self.has_unbounded(t, depth + 1) for t in kd[1])
+        return False
 
     def function(self, d, cname):
         f = CFunc()
@@ -2058,6 +2193,7 @@ class Translator:
         self.builder_ids = set()
         self.lambdas = {}
         self.var_types = {}
+        self.cptr_params = {}
         rt = d['type']['qualType']
         p = rt.find('(')
         rts = rt[:p].strip()
@@ -2089,7 +2225,14 @@ class Translator:
             self.used_names.add(name)
             self.locals[pd['id']] = name
             qt = pd['type']['qualType']
-            if self.by_pointer(qt):
+            mcp = re.fullmatch(r'const\s+([A-Za-z_ ]+?)\s*\*(\s*const)?', (pd['type'].get('desugaredQualType') or qt).strip())
+            if mcp and mcp.group(1).strip() in BUILTIN and mcp.group(1).strip() != 'char':
+                # pointer to an array of constant scalars owned by the caller: the pointer is an opaque identity and
+                # p[i] a pure (uninterpreted) function of (p, i); its extent is the caller's obligation
+                self.cptr_params[pd['id']] = self.tm.c(mcp.group(1).strip())
+                f.params.append(('c_opaque', name, False))
+                self.cur.stubs.add('%s[i] of the caller-owned constant array %s: pure function of (pointer, index); extent not checked' % (name, name))
+            elif self.by_pointer(qt):
                 self.ref_locals.add(pd['id'])
                 f.params.append((self.tm.tname(pd['type']), name, True))
             else:
@@ -2135,7 +2278,11 @@ class Translator:
         rts = rt[:rt.find('(')].strip()
         f.ret = self.tm.c(rts)
         if d['kind'] == 'CXXMethodDecl' and d.get('storageClass') != 'static':
-            raise ExtractError('extern member functions are not supported: ' + f.qual)
+            st = self.method_self_type(d)
+            if st is None:
+                raise ExtractError('cannot find the class of extern method ' + f.qual)
+            f.self_type = st
+            f.params.append((st + ' *', 'self', True))
         for pd in d.get('inner', []):
             if pd.get('kind') != 'ParmVarDecl':
                 continue
